@@ -27,20 +27,23 @@ func opFrame(kind string, id int64) []byte {
 }
 
 // answer writes the final response belonging to the request's operation.
-func answer(w *gldap.ResponseWriter, r *gldap.Request) {
+func answer(w *gldap.ResponseWriter, r *gldap.Request) { answerCode(w, r, 0) }
+
+// answerCode: the same with a result code of the handler's choosing (applications use codes of their own too).
+func answerCode(w *gldap.ResponseWriter, r *gldap.Request, code int) {
 	switch r.VerifRouteOp() {
 	case "bind":
-		_ = w.Write(r.NewBindResponse(gldap.WithResponseCode(0)))
+		_ = w.Write(r.NewBindResponse(gldap.WithResponseCode(code)))
 	case "search":
-		_ = w.Write(r.NewSearchDoneResponse(gldap.WithResponseCode(0)))
+		_ = w.Write(r.NewSearchDoneResponse(gldap.WithResponseCode(code)))
 	case "modify":
-		_ = w.Write(r.NewModifyResponse(gldap.WithResponseCode(0)))
+		_ = w.Write(r.NewModifyResponse(gldap.WithResponseCode(code)))
 	case "add":
-		_ = w.Write(r.NewResponse(gldap.WithApplicationCode(gldap.ApplicationAddResponse), gldap.WithResponseCode(0)))
+		_ = w.Write(r.NewResponse(gldap.WithApplicationCode(gldap.ApplicationAddResponse), gldap.WithResponseCode(code)))
 	case "delete":
-		_ = w.Write(r.NewResponse(gldap.WithApplicationCode(gldap.ApplicationDelResponse), gldap.WithResponseCode(0)))
+		_ = w.Write(r.NewResponse(gldap.WithApplicationCode(gldap.ApplicationDelResponse), gldap.WithResponseCode(code)))
 	default:
-		_ = w.Write(r.NewExtendedResponse(gldap.WithResponseCode(0)))
+		_ = w.Write(r.NewExtendedResponse(gldap.WithResponseCode(code)))
 	}
 }
 
@@ -163,7 +166,8 @@ func (c06Stream) Impl(c Case) string {
 		rc.enter(r)
 		all.Done()
 		<-released
-		answer(w, r)
+		// all handlers answer at the same moment, many of them with result codes of the application's own
+		answerCode(w, r, []int{0, 0, 1000, 1001, 4096, 32000, 123}[int(r.VerifMessage().GetID())%7]+int(r.VerifMessage().GetID()%3))
 	}
 	mux := allRoutes(h, startTLSHandler(srvTLS, 0, 0), nil)
 	if p["routes"] == "none" && mode != "starttls" {
